@@ -52,6 +52,11 @@ fn pool<E: Est>(alphabet: &[f64], depth: usize, cap: usize, rng: &mut Rng) -> Ve
 fn c11_est<E: Est>(out: &mut Out, tier: &str, rng: &mut Rng) {
     let depth = if tier == "thorough" { 5 } else { 4 };
     let mut states: Vec<E> = pool::<E>(&[1.0, -2.5, 1e9 + 1.0], depth, 40, rng);
+    for t in special_trees().iter().step_by(3) {
+        let mut o = Out::new("scratch", Some(u64::MAX)); o.active = false;
+        states.push(eval_tree::<E>(&mut o, t, Trace::None, rng));
+        if let Tree::Node(l, _) = t { states.push(eval_tree::<E>(&mut o, l, Trace::None, rng)); }
+    }
     for _ in 0..(if tier == "thorough" { 60 } else { 15 }) {
         let n = 1 + rng.below(60);
         let (d, _) = if E::ORDER >= 8 { dataset_in(rng, n, 1e9, -20.0, 20.0, FAMILIES) } else { dataset(rng, n, 1e9) };
@@ -83,7 +88,7 @@ fn c11_est<E: Est>(out: &mut Out, tier: &str, rng: &mut Rng) {
             let ie = a.accessors().iter().find(|q| q.op == "is_empty").map(|q| q.val.clone());
             out.x(ie == Some(Val::B(l == 0)), || format!("{}: is_empty {:?} with len {}", E::NAME, ie, l));
         }
-        // lengths add
+        // lengths add (random partner; and, for the first states, every partner: equal-mean pairs included)
         let b = rng.pick(&states).clone();
         let pb = words(&b);
         let mut z = a.clone();
@@ -99,6 +104,10 @@ fn c11_est<E: Est>(out: &mut Out, tier: &str, rng: &mut Rng) {
 
 fn ppool<E: PairEst>(rng: &mut Rng, count: usize) -> Vec<E> {
     let mut v = vec![E::new()];
+    // non-empty states whose total weight is exactly zero, and constant / symmetric states
+    for n in 1..=3 { let mut e = E::new(); for i in 0..n { e.add(2.0 + i as f64, 0.0); } v.push(e); }
+    for n in 1..=3 { let mut e = E::new(); for _ in 0..n { e.add(4.0, 1.0); } v.push(e); }
+    { let mut e = E::new(); e.add(1.0, 1.0); e.add(7.0, 1.0); v.push(e); let mut f = E::new(); f.add(3.0, 2.0); f.add(5.0, 2.0); v.push(f); }
     for i in 0..count {
         let n = rng.below(12);
         let mut e = E::new();
@@ -191,6 +200,11 @@ fn expect_f(out: &mut Out, ty: &str, accs: &[Acc], op: &str, want: &str, n: usiz
 
 fn c16_est<E: Est>(out: &mut Out, tier: &str, rng: &mut Rng) {
     let ty = E::NAME;
+    if out.next_case() {
+        // the empty estimator is the same however it is constructed
+        out.x(words(&E::default()) == words(&E::new()), || format!("{}::default() = {} differs from {}::new() = {}", ty, words(&E::default()), ty, words(&E::new())));
+        observe(out, &E::default());
+    }
     let reps = if tier == "thorough" { 12 } else { 4 };
     for n in 0..=4usize {
         for _ in 0..reps {
@@ -244,6 +258,12 @@ fn c16_est<E: Est>(out: &mut Out, tier: &str, rng: &mut Rng) {
 
 fn c16_pairs(out: &mut Out, tier: &str, rng: &mut Rng) {
     let reps = if tier == "thorough" { 12 } else { 4 };
+    if out.next_case() {
+        out.x(words(&Covariance::default()) == words(&Covariance::new()), || "Covariance::default() differs from new()".to_string());
+        out.x(words(&WeightedMean::default()) == words(&WeightedMean::new()), || "WeightedMean::default() differs from new()".to_string());
+        out.x(words(&WeightedMeanWithError::default()) == words(&WeightedMeanWithError::new()), || "WeightedMeanWithError::default() differs from new()".to_string());
+        out.x(words(&average::Quantile::default()) == words(&average::Quantile::new(0.5)), || "Quantile::default() differs from new(0.5)".to_string());
+    }
     for n in 0..=4usize {
         for _ in 0..reps {
             if !out.next_case() { continue; }
@@ -436,6 +456,13 @@ fn c20_est<E: Est>(out: &mut Out, tier: &str, rng: &mut Rng) {
             if mode & 4 == 0 { for x in &d[j..] { e.add(*x) } } else { e.extend_ref(&d[j..]); }
             out.x(words(&e) == want, || format!("{}: split {}|{}|{} mode {} differs from add loop", E::NAME, i, j - i, n - j, mode));
         }
+        // the same through iterators that do not know their length, and starting from default()
+        out.x(words(&E::from_iter_lazy(d)) == want, || format!("{}: collect from a filtered iterator differs from add loop on {:?}", E::NAME, &d[..d.len().min(8)]));
+        for kind in 0..3 {
+            let mut e = E::default();
+            e.extend_lazy(&d[..i], kind); e.extend_val(&d[i..j]); e.extend_lazy(&d[j..], kind + 1);
+            out.x(words(&e) == want, || format!("{}: default() then extend from lazily sized iterators (kind {}) split {}|{}|{} differs from add loop: {} vs {}", E::NAME, kind, i, j - i, n - j, words(&e), want));
+        }
         // estimate() = headline statistic
         if let (Some((name, h)), Some(est)) = (by_add.headline(), by_add.estimate()) {
             out.x(h.to_bits() == est.to_bits() || (h.is_nan() && est.is_nan()), || format!("{}: estimate() = {:?} but {}() = {:?}", E::NAME, est, name, h));
@@ -449,7 +476,7 @@ fn c20_pair<E: PairEst>(out: &mut Out, tier: &str, rng: &mut Rng) {
     for _ in 0..(if tier == "thorough" { 120 } else { 30 }) {
         if !out.next_case() { continue; }
         let n = rng.below(30);
-        let d: Vec<(f64, f64)> = (0..n).map(|_| (rng.normal() * 1e3 + 5.0, if E::NAME == "Covariance" { rng.normal() } else { rng.unit() * 3.0 })).collect();
+        let d: Vec<(f64, f64)> = (0..n).map(|_| (rng.normal() * 1e3 + 5.0, if E::NAME == "Covariance" { rng.normal() } else if rng.unit() < 0.25 { 0.0 } else { rng.unit() * 3.0 })).collect();
         let mut by_add = E::new();
         pfeed(out, &mut by_add, &d, if n <= 10 { Trace::All } else { Trace::None }, rng);
         let want = words(&by_add);
@@ -462,6 +489,8 @@ fn c20_pair<E: PairEst>(out: &mut Out, tier: &str, rng: &mut Rng) {
             if mode & 4 == 0 { for (a, b) in &d[j..] { e.add(*a, *b) } } else { e.extend_val(&d[j..]); }
             out.x(words(&e) == want, || format!("{}: split {}|{}|{} mode {} differs from add loop", E::NAME, i, j - i, n - j, mode));
         }
+        out.x(words(&E::from_iter_lazy(&d)) == want, || format!("{}: collect from a filtered iterator differs from add loop", E::NAME));
+        { let mut e = E::default(); e.extend_lazy(&d[..i]); e.extend_ref(&d[i..]); out.x(words(&e) == want, || format!("{}: default() + lazy extend differs from add loop", E::NAME)); }
         out.note(E::NAME);
     }
 }
